@@ -1852,3 +1852,21 @@ theorem greachable_iff (chk : Nat → Nat → Bool) (v0 : Nat) (s : State) :
     exact ⟨ls, (mach_run chk ls (init v0)).symm.trans this⟩
 
 end Woodpile.Abt.RA
+
+namespace Woodpile.Abt.RA
+
+/-- Views only grow along any run. -/
+theorem views_run {chk : Nat → Nat → Bool} (ls : List Label) : ∀ (s s' : State), Inv chk s →
+    run chk s ls = some s' → ∀ t l, (s.thr t).view l ≤ (s'.thr t).view l := by
+  induction ls with
+  | nil => intro s s' _ h; simp [run] at h; subst h; intro _ _; exact Nat.le_refl _
+  | cons l ls ih =>
+    intro s s' hI h t loc
+    simp only [run] at h
+    cases hst : step chk s l with
+    | none => simp [hst] at h
+    | some s1 =>
+      simp only [hst] at h
+      exact Nat.le_trans ((step_frame hI l hst).views t loc) (ih s1 s' (inv_step chk s s1 l hI hst) h t loc)
+
+end Woodpile.Abt.RA
